@@ -2,6 +2,8 @@
 """C04 Implicit hydrogen counts and valence errors follow the element valence rules -- structural clauses."""
 from ..r_valence import (rule_tables_compile, rule_definite_assignment, rule_sibling_agreement, rule_aromatic_carbon, rule_totals)
 
+from ..r_domains import rule_domains
+
 LEVEL = 'other'
 
 
@@ -10,5 +12,6 @@ def run(ck, repo):
     rule_tables_compile(ck, repo, 'C04.D1-tables-compile')
     rule_definite_assignment(ck, repo, 'C04.D2-definite-assignment')
     rule_sibling_agreement(ck, repo, 'C04.D3-sibling-agreement')
+    rule_domains(ck, repo, 'C04.D3-environment-domains', only=['_compiled_valence_rules', '_compiled_saturation_rules', 'calc_implicit', 'check_implicit', 'implicify_hydrogens'])
     rule_aromatic_carbon(ck, repo, 'C04.D3-aromatic-carbon')
     rule_totals(ck, repo, 'C04.D4-totals')
